@@ -1084,7 +1084,7 @@ func (NilExpression) ToProto() (*pb.NodeProto, error) {
 }
 
 func NilExpressionFromProto(node *pb.NodeProto) (Expression, error) {
-	return Expression{}, nil
+	return Expression{AnyExpression: NilExpression{}}, nil
 }
 
 func (n NilExpression) Clone() Expression {
